@@ -712,7 +712,9 @@ class Unary(Expression):
     def calculate(self, dst, long, force=False):
         # work on a copy: the argument may be a register of the user
         with self.ebpf.get_free_register(dst) as dst:
-            with self.arg.calculate(dst, long, True) as (dst, long):
+            with self.arg.calculate(dst, long, True) as (dst, arg_long):
+                # 64 bits if the caller asks for them or the argument has them
+                long = long or arg_long
                 self.calculate_unary(dst, long)
                 yield dst, long
 
